@@ -395,6 +395,39 @@ def expr_type(p, f, e):
     return p.type_of(f, e)
 
 
+@rule('EXC-NEXT', 'D', 'the builtin next() is never called without a default: StopIteration cannot escape from a search that finds nothing')
+def exc_next(p, res):
+    """Expected count on the reviewed tree: zero calls of the builtin next() at all; every search is a loop that leaves its result
+    None.  A rewrite to next(<generator>) without a default raises StopIteration for the inputs where the loop found nothing.
+    The rule keeps a positive example so that it cannot pass vacuously."""
+    def scan(tree, scope_names=()):
+        out = []
+        for n in ast.walk(tree):
+            if isinstance(n, ast.Call) and isinstance(n.func, ast.Name) and n.func.id == 'next' and 'next' not in scope_names:
+                out.append(n)
+        return out
+    # self-test of the matcher on a tiny positive / negative example
+    pos = scan(ast.parse('x = next(r for r in xs if r.ok)'))
+    neg = scan(ast.parse('x = next((r for r in xs if r.ok), None)'))
+    if len(pos) != 1 or len(pos[0].args) != 1 or len(neg) != 1 or len(neg[0].args) != 2:
+        raise AnalysisError('EXC-NEXT: matcher self-test failed')
+    res.ok('matcher self-test: next(gen) found, next(gen, None) accepted')
+    n_calls = 0
+    for f in p.funcs.values():
+        shadow = set(f.locals) | set(f.params)
+        for c in f.body_nodes():
+            if isinstance(c, ast.Call) and isinstance(c.func, ast.Name) and c.func.id == 'next' and 'next' not in shadow \
+                    and p.resolve_name(f, 'next') is not None and p.resolve_name(f, 'next').kind == 'builtin':
+                n_calls += 1
+                if len(c.args) == 1 and not c.keywords:
+                    res.bad(F('EXC-NEXT', f, c, src_of(c), 'next() without a default raises StopIteration when nothing is found: an internal error instead of the documented behaviour for that input'))
+                else:
+                    res.ok('%s: %s has a default' % (f.short, src_of(c)[:60]))
+    res.stats['next_calls'] = n_calls
+    res.ok('%d call(s) of the builtin next() in the package' % n_calls)
+    res.require_floor(2)
+
+
 @rule('EXC-JOIN', 'D', 'elements handed to str.join in a display are not provably non-strings')
 def exc_join(p, res):
     nonstr = {'int', 'float', 'bool', 'list', 'dict', 'tuple', 'None'}
